@@ -339,3 +339,36 @@ Proof.
   all: repeat match type of H with (if ?c then _ else _) = _ => destruct c end; try solve [inversion H; reflexivity].
   all: inv_bind H; eapply mut_scmp_msg_type_read; eassumption.
 Qed.
+
+(** * summary: operations covered by the layout-preservation theorem *)
+Definition layout_preserving_op (k : vkind) (id : N) : bool :=
+  match k with
+  | KInfo | KHop | KOneHop | KScmpMsg _ | KStdPath | KScmp => true
+  | KUdp => negb (id =? 2)                         (* all but UdpDatagramView::set_length *)
+  | KHeader => (1 <=? id) && (id <=? 7)            (* the scalar setters but set_version *)
+  | _ => false
+  end.
+
+Lemma run_mut_preserves_required_size k id arg val v v' :
+  layout_preserving_op k id = true -> bytes_ok v = true -> required_size k v = Ok (blen v) ->
+  run_mut k id arg val v = Ok v' -> required_size k v' = required_size k v.
+Proof.
+  intros Hop Hok Hv H.
+  destruct k; cbn [layout_preserving_op] in Hop; try discriminate Hop; cbn [run_mut required_size] in *.
+  - apply Bool.andb_true_iff in Hop. destruct Hop as [H1 H7]. apply N.leb_le in H1. apply N.leb_le in H7.
+    unfold required_size_header. rewrite (mut_header_scalar_preserves id arg val v v' Hok (conj H1 H7) H). reflexivity.
+  - eapply mut_stdpath_preserves; eassumption.
+  - apply (required_size_length_only KOneHop); [reflexivity|]. eapply mut_onehop_length; eassumption.
+  - apply (required_size_length_only KInfo); [reflexivity|]. eapply mut_info_length; eassumption.
+  - apply (required_size_length_only KHop); [reflexivity|]. eapply mut_hop_length; eassumption.
+  - eapply mut_udp_preserves; [exact Hok| |exact H]. apply Bool.negb_true_iff in Hop. apply N.eqb_neq in Hop. exact Hop.
+  - eapply mut_scmp_preserves; [exact Hok| |exact H].
+    pose proof (required_size_min KScmp v _ Hv) as M. cbn [min_size] in M. unfold ScmpUnknownMessage_HEADER_SIZE_BYTES. exact M.
+  - apply (required_size_length_only (KScmpMsg ty)); [reflexivity|]. eapply mut_scmp_msg_length; eassumption.
+Qed.
+
+(** safe mutators keep byte strings byte strings *)
+Lemma run_mut_bytes_ok_info id val v v' : bytes_ok v = true -> mut_info id val v = Ok v' -> bytes_ok v' = true.
+Proof.
+  unfold mut_info. intros Hok H. split_id H; try solve [eapply wr_bytes_ok; eassumption]; inversion H; subst; exact Hok.
+Qed.
